@@ -48,27 +48,24 @@
 (* instance of the array; MAY edge kinds (mode).                           *)
 (***************************************************************************)
 EXTENDS Integers, Sequences, FiniteSets, TLC
+SeqX == INSTANCE SequencesExt
 
 Range(s) == {s[i] : i \in DOMAIN s}
 Merge(a, b) == [x \in DOMAIN a \cup DOMAIN b |-> IF x \in DOMAIN b THEN b[x] ELSE a[x]]
 Restrict(r, K) == [x \in DOMAIN r \cap K |-> r[x]]
 
-\* (recursions over long sequences split in halves: TLC evaluates recursion
-\* on the Java stack, and a ladder's sequence has hundreds of entries)
+\* (folds over long sequences use SequencesExt!FoldLeft, which TLC evaluates
+\* with a Java loop: a recursive operator deepens the Java stack with every
+\* entry, and a ladder's sequence has hundreds of entries)
 RECURSIVE Asc(_)
 Asc(X) == IF X = {} THEN <<>>
           ELSE LET m == CHOOSE x \in X : \A y \in X : x <= y IN <<m>> \o Asc(X \ {m})
-RECURSIVE FlatR(_, _, _)
-FlatR(F, lo, hi) == IF lo > hi THEN <<>>
-                    ELSE IF lo = hi THEN F[lo]
-                    ELSE LET mid == (lo + hi) \div 2
-                         IN FlatR(F, lo, mid) \o FlatR(F, mid + 1, hi)
-Flat(F, n) == FlatR(F, 1, n)            \* F[1] \o ... \o F[n]
-RECURSIVE SumR(_, _, _)
-SumR(f, lo, hi) == IF lo > hi THEN 0
-                   ELSE IF lo = hi THEN f[lo]
-                   ELSE LET mid == (lo + hi) \div 2 IN SumR(f, lo, mid) + SumR(f, mid + 1, hi)
-SumTo(f, k) == SumR(f, 1, k)
+Flat(F0, n) ==                          \* F[1] \o ... \o F[n]
+  LET F == TLCEval(F0) IN
+  SeqX!FoldLeft(LAMBDA acc, i : acc \o F[i], <<>>, [i \in 1..n |-> i])
+SumTo(f0, k) ==
+  LET f == TLCEval(f0) IN
+  SeqX!FoldLeft(LAMBDA acc, i : acc + f[i], 0, [i \in 1..k |-> i])
 BagOfSeq(s) == [x \in Range(s) |-> Cardinality({i \in DOMAIN s : s[i] = x})]
 Count(b, x) == IF x \in DOMAIN b THEN b[x] ELSE 0
 
@@ -262,14 +259,10 @@ ClsStep(E, withOid, prev, k) ==
       first(X) == IF X = {} THEN k ELSE CHOOSE j \in X : \A z \in X : j <= z
   IN [free |-> Append(prev.free, first(same0)), cls |-> Append(prev.cls, first(same1)),
       s0 |-> Append(prev.s0, sig0), s1 |-> Append(prev.s1, sig1)]
-RECURSIVE ClsFold(_, _, _, _, _)
-ClsFold(E, withOid, acc, lo, hi) ==
-  IF lo > hi THEN acc
-  ELSE IF lo = hi THEN ClsStep(E, withOid, acc, lo)
-  ELSE LET mid == (lo + hi) \div 2
-       IN ClsFold(E, withOid, TLCEval(ClsFold(E, withOid, acc, lo, mid)), mid + 1, hi)
-ClsUpTo(E, withOid, k) ==
-  ClsFold(E, withOid, [free |-> <<>>, cls |-> <<>>, s0 |-> <<>>, s1 |-> <<>>], 1, k)
+ClsUpTo(E0, withOid, k) ==
+  LET E == TLCEval(E0)
+      start == [free |-> <<>>, cls |-> <<>>, s0 |-> <<>>, s1 |-> <<>>]
+  IN SeqX!FoldLeft(LAMBDA acc, i : TLCEval(ClsStep(E, withOid, acc, i)), start, [i \in 1..k |-> i])
 
 ClassBagsEqual(E, n, withOid) ==
   LET c == ClsUpTo(E, withOid, Len(E)).cls
